@@ -5,7 +5,7 @@ EXTENDS Numeric, TraceLib
 
 \* values that do not fit TLC's integers are not judged
 Fits(x) == x < 2147483647
-InDomain(in) ==
+InDomain(in, obs) ==
   /\ ("v" \in DOMAIN in.n => Fits(in.n.v))
   /\ \A i \in DOMAIN in.files :
         LET f == in.files[i] IN
